@@ -32,7 +32,7 @@ MUTATORS = [
     "none", "none", "none", "op-rotate", "op-drop-first", "mn-as-op", "op-as-mn", "insert", "delete", "swap",
     "hexword", "later-operand", "next-inst", "too-many-ops", "extra-trailing-op", "edge-window", "unrelated", "hex-h-name", "int-name",
 ]
-FLOORS = {"expect=found": 0.30, "near-miss": 0.30, "listing=real-objdump": 0.06}
+FLOORS = {"expect=found": 0.30, "near-miss": 0.30, "listing=real-objdump": 0.06, "same-path-rewrite-with-restored-mtime": 0.02}
 for _m in set(MUTATORS) - {"none", "unrelated"}:
     FLOORS[f"mut={_m}"] = 0.02
 FLAGS = [(False, False), (True, False), (False, True), (True, True)]
@@ -260,6 +260,51 @@ def locate(text, records):
     return None
 
 
+_SAME_LEN = {"%rax": "%rbx", "%rbx": "%rcx", "%rcx": "%rdx", "%rdx": "%rax", "%eax": "%ebx", "%ebx": "%ecx", "%ecx": "%edx", "%edx": "%eax", "$0x10": "$0x18", "$0x28": "$0x20", "%rsi": "%rdi",
+             "%rdi": "%rsi", "%rsp": "%rbp", "%rbp": "%rsp", "$0x1": "$0x8", "$0x8": "$0x1", "%r8": "%r9", "%xmm0": "%xmm1", "%xmm1": "%xmm0"}
+
+
+def _same_path_rewrite(ev, case, L, pattern):
+    """The listing is matched, then replaced IN PLACE by one that differs in a single operand of the same length - same path, same
+    size, and the old timestamps put back (cp -p, rsync -t, a patcher that restores them) - and matched again: the verdict is that
+    of the file as it is now (nothing outside the window of instructions - here: what the file used to hold - influences it)."""
+    import os
+
+    cand = [(k, q) for k, rec in enumerate(L) for q, o in enumerate(rec[2]) if o in _SAME_LEN]
+    if not cand:
+        return
+    k, q = cand[len(case["pattern"]) % len(cand)]
+    L2 = [[r[0], r[1], list(r[2]), list(r[3])] for r in L]
+    new = _SAME_LEN[L2[k][2][q]]
+    L2[k][2][q] = new
+    L2[k][3][q] = new.lstrip("$")
+    t1, t2 = render(att_view(L)), render(att_view(L2))
+    if len(t1) != len(t2):
+        return
+    sc = jasm_io.scratch()
+    lp = sc.write("c01_rewritten_in_place.s", t1)
+    rp = sc.write("c01_rewrite_rule.yaml", jasm_io.rule_text(jasm_io.make_doc(pattern)))
+    first = jasm_io.match_files(rp, lp, mode="list", search="all", only_addr=True)
+    st_ = os.stat(lp)
+    with open(lp, "w") as f:
+        f.write(t2)
+    os.utime(lp, ns=(st_.st_atime_ns, st_.st_mtime_ns))
+    second = jasm_io.match_files(rp, lp, mode="list", search="all", only_addr=True)
+    fresh = jasm_io.match_files(rp, sc.write("c01_rewritten_copy.s", t2), mode="list", search="all", only_addr=True)
+    ev.subcases += 3
+    ev.tags.append("same-path-rewrite-with-restored-mtime")
+    spans2 = Ref(norm_view(L2), False, False).spans(pattern)
+    want2, pos = [], 0
+    for i_ in sorted(spans2):
+        if i_ >= pos and any(j_ > i_ for j_ in spans2[i_]):
+            want2.append(L2[i_][0])
+            pos = min(j_ for j_ in spans2[i_] if j_ > i_)
+    if second[0] == "ok" and fresh[0] == "ok" and (second[1] != fresh[1] or second[1] != want2):
+        ev.dev("stale-answer-after-rewrite-in-place", expected=want2[:4], same_path=second[1][:4], fresh_copy=fresh[1][:4], before_rewrite=first[1][:4] if first[0] == "ok" else list(first[:2]))
+    elif "exc" in (second[0], fresh[0]):
+        ev.dev("exception", mode="same-path-rewrite", error=[list(second[:2]), list(fresh[:2])])
+
+
 def evaluate(case):
     ev = Eval()
     pattern = case["pattern"]
@@ -349,6 +394,8 @@ def evaluate(case):
         ev.dev("exception", mode="list/address-only", error=list(r_addr[1:]))
     if NV and NV[0][0] == "0" and want[:1] == ["0"]:
         ev.tags.append("match-at-address-0")
+    if case.get("form") != "real" and len(text) % 12 == 5:
+        _same_path_rewrite(ev, case, L, pattern)
     ev.tags += list(case.get("addr_tags", []))
     found_default = verdicts[0]
     ev.tags.append(f"mut={mut}")
